@@ -115,3 +115,39 @@ M['C09'] = [
     dict(id='c09-benign-setter-inlined-by-hand', kind='benign', edits=[
         ('src/vector.c', '    if (sz > v->cap) {\n        cstl_vector_set_capacity(v, sz);\n    }', '    if (sz > v->cap && sz < SIZE_MAX && v->elem.size > 0 && sz + 1 <= SIZE_MAX / v->elem.size) {\n        void * const e = realloc(v->elem.base, (sz + 1) * v->elem.size);\n        if (e != NULL) {\n            v->elem.base = e;\n            v->cap = sz;\n        }\n    }')]),
 ]
+
+# ------------------------------------------------------------------------------------------- C10
+M['C10'] = [
+    dict(id='c10-revert-clamp', kind='fault', rule='T1', edits=[
+        ('src/_string.c', '    if (*len > size - pos) {', '    if (pos + *len > size) {')]),
+    dict(id='c10-revert-insert-growth-check', kind='fault', rule='T1', edits=[
+        ('src/_string.c', '        if (len > SIZE_MAX - size) {\n            abort();\n        }\n', '')]),
+    dict(id='c10-revert-resize-max-check', kind='fault', rule='T1', edits=[
+        ('src/_string.c', '    if (n == SIZE_MAX) {\n        /* no room for the nul */\n        abort();\n    }\n', '')]),
+    dict(id='c10-no-terminator', kind='fault', rule='T2', edits=[
+        ('src/_string.c', '    cstl_vector_resize(&s->v, n + 1);\n    *STRF(__at, s, n) = STRV(nul);', '    cstl_vector_resize(&s->v, n + 1);')]),
+    dict(id='c10-terminator-only-when-growing', kind='fault', rule='T2', edits=[
+        ('src/_string.c', '    cstl_vector_resize(&s->v, n + 1);\n    *STRF(__at, s, n) = STRV(nul);', '    const size_t old = STRF(size, s);\n    cstl_vector_resize(&s->v, n + 1);\n    if (n > old) {\n        *STRF(__at, s, n) = STRV(nul);\n    }')]),
+    dict(id='c10-stale-base-for-terminator', kind='fault', rule='T2', edits=[
+        ('src/_string.c', '    cstl_vector_resize(&s->v, n + 1);\n    *STRF(__at, s, n) = STRV(nul);', '    cstl_STRING_char_t * const d = STRF(data, s);\n    cstl_vector_resize(&s->v, n + 1);\n    d[n] = STRV(nul);')]),
+    dict(id='c10-direct-vector-resize-in-erase', kind='fault', rule='T2', edits=[
+        ('src/_string.c', '    STRF(__resize, s, size - len);\n}', '    cstl_vector_resize(&s->v, size - len + 1);\n}')]),
+    dict(id='c10-insert-pos-check-off-by-one', kind='fault', rule='T3', edits=[
+        ('src/_string.c', '    if (pos > STRF(size, s)) {\n        abort();', '    if (pos > STRF(size, s) + 1) {\n        abort();')]),
+    dict(id='c10-find-ch-allows-pos-eq-size', kind='fault', rule='T3', edits=[
+        ('src/_string.c', '    if (pos >= sz) {\n        abort();', '    if (pos > sz) {\n        abort();')]),
+    dict(id='c10-erase-no-pos-check', kind='fault', rule='T3', edits=[
+        ('src/_string.c', '    if (pos >= size) {\n        abort();\n    }\n\n    if (*len > size - pos) {', '    if (*len > size - pos) {')]),
+    dict(id='c10-find-str-returns-instead-of-abort', kind='fault', rule='T3', edits=[
+        ('src/_string.c', '    if (pos >= STRF(size, h)) {\n        abort();\n    }', '    if (pos > STRF(size, h)) {\n        return -1;\n    }')]),
+    dict(id='c10-str-returns-null', kind='fault', rule='T4', edits=[
+        ('src/_string.c', '    if (str == NULL) {\n        str = &STRV(nul);\n    }\n    return str;', '    return str;')]),
+    dict(id='c10-benign-clamp-other-form', kind='benign', edits=[
+        ('src/_string.c', '    if (*len > size - pos) {\n        *len = size - pos;\n    }', '    const size_t avail = size - pos;\n    if (avail < *len) {\n        *len = avail;\n    }')]),
+    dict(id='c10-benign-growth-check-other-form', kind='benign', edits=[
+        ('src/_string.c', '        if (len > SIZE_MAX - size) {\n            abort();\n        }', '        if (SIZE_MAX - size < len) {\n            abort();\n        }')]),
+    dict(id='c10-benign-pos-check-negated', kind='benign', edits=[
+        ('src/_string.c', '    if (pos > STRF(size, s)) {\n        abort();\n    }\n\n    if (len > 0) {', '    if (!(pos <= STRF(size, s))) {\n        abort();\n    }\n\n    if (len > 0) {')]),
+    dict(id='c10-benign-size-ternary', kind='benign', edits=[
+        ('include/cstl/_string.h', '    size_t sz = cstl_vector_size(&s->v);\n    if (sz > 0) {\n        sz--;\n    }\n    return sz;', '    const size_t sz = cstl_vector_size(&s->v);\n    return (sz > 0) ? sz - 1 : 0;')]),
+]
